@@ -18,12 +18,20 @@
 #define S_ROTL32(x, n) ((uint32_t) (((uint32_t) (x) << (n)) | ((uint32_t) (x) >> ((32 - (n)) & 31))))
 #define S_ROTR32(x, n) ((uint32_t) (((uint32_t) (x) >> (n)) | ((uint32_t) (x) << ((32 - (n)) & 31))))
 #define S_ROTR64(x, n) ((uint64_t) (((uint64_t) (x) >> (n)) | ((uint64_t) (x) << ((64 - (n)) & 63))))
+/* S_MB(M, t, j): byte j of 32-bit message word t; S_HK(H, k): chaining word k.  The multi-hash block
+ * functions override them to select segment g_s of the interleaved block / digest matrix. */
+#ifndef S_MB
+#define S_MB(M, t, j) ((M)[4 * (t) + (j)])
+#endif
+#ifndef S_HK
+#define S_HK(H, k) ((H)[k])
+#endif
 #define S_BE32(M, t)                                                                               \
-        (((uint32_t) (M)[4 * (t)] << 24) | ((uint32_t) (M)[4 * (t) + 1] << 16) |                   \
-         ((uint32_t) (M)[4 * (t) + 2] << 8) | (uint32_t) (M)[4 * (t) + 3])
+        (((uint32_t) S_MB(M, t, 0) << 24) | ((uint32_t) S_MB(M, t, 1) << 16) |                     \
+         ((uint32_t) S_MB(M, t, 2) << 8) | (uint32_t) S_MB(M, t, 3))
 #define S_LE32(M, t)                                                                               \
-        (((uint32_t) (M)[4 * (t) + 3] << 24) | ((uint32_t) (M)[4 * (t) + 2] << 16) |               \
-         ((uint32_t) (M)[4 * (t) + 1] << 8) | (uint32_t) (M)[4 * (t)])
+        (((uint32_t) S_MB(M, t, 3) << 24) | ((uint32_t) S_MB(M, t, 2) << 16) |                     \
+         ((uint32_t) S_MB(M, t, 1) << 8) | (uint32_t) S_MB(M, t, 0))
 #define S_BE64(M, t) (((uint64_t) S_BE32(M, 2 * (t)) << 32) | (uint64_t) S_BE32(M, 2 * (t) + 1))
 
 #if defined(VF_ALG_SHA1)
@@ -80,8 +88,8 @@ static void
 vf_spec_load(const S_WORD *H)
 {
         for (int k = 0; k < S_NS; k++) {
-                vfS.Hin[k] = H[k];
-                vfS.s[k] = H[k];
+                vfS.Hin[k] = S_HK(H, k);
+                vfS.s[k] = S_HK(H, k);
         }
         vfS.t = 0;
 }
